@@ -3564,11 +3564,10 @@ impl Transition {
                     if name.len() == e.len() {
                         // Full match
                         return true;
-                    } else if let Some(c) = name.chars().nth(e.len()) {
+                    } else if name.as_bytes()[e.len()] == b'.' {
                         // partial match, token needs to be terminated with "."
-                        if c == '.' {
-                            return true;
-                        }
+                        // ("e.len()" is a byte offset, the name starts with "e" and is longer)
+                        return true;
                     }
                 }
             }
